@@ -259,19 +259,25 @@ def rule_arms(chk, bp):
                    "CompiledPipelineStage.%s differs per target: %s" % (fld, {k: v[1].get(fld) for k, v in arms.items()}), where(bp))
 
 
-def rule_bindings_eval(chk):
-    """analyse_bindings of both exporters read as a table: each is evaluated by the finite-map reader on one-resource
-    modules (every ObjectType x {plain, const, array, const array of const, unbounded array} x bindless flag; the name
-    maps are stand-ins that return a name tagged with the target, since each target has its own reserved words). What is
-    registered must not depend on the target: same name (so: the source name, not a name-map name), descriptor kind,
-    count, bindless flag and slot."""
+def binding_cases(f):
+    """[(object, shape, bindless, bound, {target: result})] of analyse_bindings on one-resource modules, or a string saying
+    why it cannot be read. Cached on the facts."""
+    if getattr(f, "_binding_cases", None) is not None:
+        return f._binding_cases
+    f._binding_cases = _binding_cases(f)
+    return f._binding_cases
+
+
+SHAPE_COUNT = {"plain": ("Some", 1), "const": ("Some", 1), "array[4]": ("Some", 4), "const array[3] of const": ("Some", 3), "unbounded array": ("None",), "const unbounded array": ("None",)}
+
+
+def _binding_cases(f):
     import interp as I
     import bindmodel as BM
-    f = chk.facts
     abs_ = {"hlsl": f.fn("analyse_bindings", "rssl_hlsl"), "msl": f.fn("analyse_bindings", "rssl_msl")}
     ot = f.adt("ObjectType", "rssl_ir")
     if not all(abs_.values()) or not ot:
-        return False
+        return "analyse_bindings / ObjectType not found"
     bm = BM.BindModel(f)
     objs = {}
     for v in ot["variants"]:
@@ -280,9 +286,10 @@ def rule_bindings_eval(chk):
     objs["<scalar>"] = bm.scalar()
     shapes = {"plain": lambda t: t, "const": lambda t: bm.mod(t), "array[4]": lambda t: bm.array(t, 4), "const array[3] of const": lambda t: bm.mod(bm.array(bm.mod(t), 3)),
               "unbounded array": lambda t: bm.array(t, None), "const unbounded array": lambda t: bm.mod(bm.array(t, None))}
+    assert set(shapes) == set(SHAPE_COUNT)
     opt = BM.opt
 
-    def run(tgt, name, t, bindless):
+    def run(tgt, name, t, bindless, bound=True, cbuffer=False):
         got = []
         ext = dict(bm.externs())
         ext["register_binding"] = lambda a: got.append((a[1], a[2])) or ()
@@ -290,14 +297,19 @@ def rule_bindings_eval(chk):
             ext[k] = lambda a: "<%s name map>(%s)" % (tgt, name)
         ip = I.Interp(f, max_depth=8, extern=ext)
         ip.max_loop = 64
+        slot = I.Enum("ApiBinding", None, {"set": 2, "location": I.Enum("ApiLocation", "Index", {"0": 5}), "slot_type": opt(None)})
         g = I.Enum("GlobalVariable", None, {
             "name": I.Enum("Located", None, {"node": name, "location": I.Opaque("loc")}), "type_id": BM.tid(t),
-            "api_slot": opt(I.Enum("ApiBinding", None, {"set": 2, "location": I.Enum("ApiLocation", "Index", {"0": 5}), "slot_type": opt(None)})),
+            "api_slot": opt(slot if bound else None),
             "lang_slot": I.Opaque("lang slot"), "is_bindless": bindless, "static_sampler": opt(None), "is_intrinsic": False, "storage_class": I.Enum("GlobalStorage", "Extern")})
-        mod = I.Enum("Module", None, {"global_registry": [g], "cbuffer_registry": [], "type_registry": I.Opaque("type registry")})
+        cb = I.Enum("ConstantBuffer", None, {"name": I.Enum("Located", None, {"node": name, "location": I.Opaque("loc")}), "namespace": opt(None), "lang_binding": I.Opaque("lang slot"),
+                                             "api_binding": opt(slot if bound else None), "members": []})
+        mod = I.Enum("Module", None, {"global_registry": [g], "cbuffer_registry": [cb], "type_registry": I.Opaque("type registry")})
         # (the second argument is the module for one exporter and a context holding it for the other: the stand-in is both)
         ctx = I.Enum("GenerateContext", None, dict(mod.fields, module=mod, name_map=I.Opaque("name map")))
         decl = I.Enum("RootDefinition", "GlobalVariable", {"0": I.Enum("GlobalId", None, {"0": 0})})
+        if cbuffer:
+            decl = I.Enum("RootDefinition", "ConstantBuffer", {"0": I.Enum("ConstantBufferId", None, {"0": 0})})
         ab = abs_[tgt]
         nparams = len(ab.get("params") or []) or (2 if tgt == "hlsl" else 3)
         try:
@@ -319,41 +331,71 @@ def rule_bindings_eval(chk):
             return v
         return ("Ok", {"group": grp, "name": b.fields.get("name"), "slot": flat(b.fields.get("api_binding")), "kind": flat(b.fields.get("descriptor_type")),
                        "count": flat(b.fields.get("descriptor_count")), "bindless": b.fields.get("is_bindless")})
-    bad_name = {"hlsl": None, "msl": None}
-    bad_kind, bad_count, bad_other = {}, {}, None
-    n = 0
+    out = []
     for oname, base in sorted(objs.items()):
         for sname, mk in shapes.items():
             for bindless in (False, True):
                 if bindless and sname not in ("unbounded array", "plain"):
                     continue
-                t = mk(base)
-                res = {tgt: run(tgt, "res", t, bindless) for tgt in abs_}
-                for tgt, r in res.items():
-                    if r[0] == "unreadable":
-                        chk.note("C18.bindings: %s analyse_bindings is not readable on %s %s (%s): the shape rules decide" % (tgt, sname, oname, r[1]))
-                        return False
-                n += 1
-                h, m = res["hlsl"], res["msl"]
-                what = "%s %s%s" % (sname, oname, " (bindless)" if bindless else "")
-                for tgt, r in res.items():
-                    if r[0] == "aborts":
-                        bad_other = bad_other or "%s analyse_bindings aborts on a %s resource (%s)" % (tgt, what, r[1])
-                    if r[0] == "Ok" and r[1]["name"] != "res" and not bad_name[tgt]:
-                        bad_name[tgt] = "a %s resource declared as `res` is reported by %s under %r: a name that went through that target's name map, whose reserved words differ from the other targets'" % (what, tgt, r[1]["name"])
-                if h[0] != m[0]:
-                    if not (h[0] == "Ok" and m[0] == "Err" or h[0] == "Err" and m[0] == "Ok"):    # one target not supporting an object type is not a disagreement of the reflection
-                        bad_kind.setdefault(oname, "%s: HLSL %s, MSL %s" % (what, h[0], m[0]))
-                    continue
-                if h[0] != "Ok":
-                    continue
-                if h[1]["kind"] != m[1]["kind"]:
-                    bad_kind.setdefault(oname, "a %s resource is described as %s by HLSL and as %s by MSL" % (what, h[1]["kind"], m[1]["kind"]))
-                if h[1]["count"] != m[1]["count"]:
-                    bad_count.setdefault(sname, "a %s resource has descriptor count %s for HLSL and %s for MSL" % (what, h[1]["count"], m[1]["count"]))
-                for k in ("group", "slot", "bindless"):
-                    if h[1][k] != m[1][k]:
-                        bad_other = bad_other or "a %s resource: %s is %s for HLSL and %s for MSL" % (what, k, h[1][k], m[1][k])
+                for bound in (True, False):
+                    if not bound and (bindless or sname not in ("plain", "array[4]")):
+                        continue
+                    t = mk(base)
+                    res = {tgt: run(tgt, "res", t, bindless, bound) for tgt in abs_}
+                    for tgt, r in res.items():
+                        if r[0] == "unreadable":
+                            return "%s analyse_bindings is not readable on %s %s (%s)" % (tgt, sname, oname, r[1])
+                    out.append((oname, sname, bindless, bound, res))
+    for bound in (True, False):
+        res = {tgt: run(tgt, "res", objs["<scalar>"], False, bound, cbuffer=True) for tgt in abs_}
+        for tgt, r in res.items():
+            if r[0] == "unreadable":
+                return "%s analyse_bindings is not readable on a constant buffer (%s)" % (tgt, r[1])
+        out.append(("<cbuffer>", "plain", False, bound, res))
+    return out
+
+
+def rule_bindings_eval(chk):
+    """analyse_bindings of both exporters read as a table: each is evaluated by the finite-map reader on one-resource
+    modules (every ObjectType x {plain, const, array, const array of const, unbounded array} x bindless flag; the name
+    maps are stand-ins that return a name tagged with the target, since each target has its own reserved words). What is
+    registered must not depend on the target: same name (so: the source name, not a name-map name), descriptor kind,
+    count, bindless flag and slot."""
+    f = chk.facts
+    abs_ = {"hlsl": f.fn("analyse_bindings", "rssl_hlsl"), "msl": f.fn("analyse_bindings", "rssl_msl")}
+    cases = binding_cases(f)
+    if isinstance(cases, str):
+        chk.note("C18.bindings: %s: the shape rules decide" % cases)
+        return False
+    objs = sorted({c[0] for c in cases})
+    shapes = list(SHAPE_COUNT)
+    bad_name = {"hlsl": None, "msl": None}
+    bad_kind, bad_count, bad_other = {}, {}, None
+    n = 0
+    for oname, sname, bindless, bound, res in cases:
+        if not bound:
+            continue
+        n += 1
+        h, m = res["hlsl"], res["msl"]
+        what = "%s %s%s" % (sname, oname, " (bindless)" if bindless else "")
+        for tgt, r in res.items():
+            if r[0] == "aborts":
+                bad_other = bad_other or "%s analyse_bindings aborts on a %s resource (%s)" % (tgt, what, r[1])
+            if r[0] == "Ok" and r[1]["name"] != "res" and not bad_name[tgt]:
+                bad_name[tgt] = "a %s resource declared as `res` is reported by %s under %r: a name that went through that target's name map, whose reserved words differ from the other targets'" % (what, tgt, r[1]["name"])
+        if h[0] != m[0]:
+            if not (h[0] == "Ok" and m[0] == "Err" or h[0] == "Err" and m[0] == "Ok"):    # one target not supporting an object type is not a disagreement of the reflection
+                bad_kind.setdefault(oname, "%s: HLSL %s, MSL %s" % (what, h[0], m[0]))
+            continue
+        if h[0] != "Ok":
+            continue
+        if h[1]["kind"] != m[1]["kind"]:
+            bad_kind.setdefault(oname, "a %s resource is described as %s by HLSL and as %s by MSL" % (what, h[1]["kind"], m[1]["kind"]))
+        if h[1]["count"] != m[1]["count"]:
+            bad_count.setdefault(sname, "a %s resource has descriptor count %s for HLSL and %s for MSL" % (what, h[1]["count"], m[1]["count"]))
+        for k in ("group", "slot", "bindless"):
+            if h[1][k] != m[1][k]:
+                bad_other = bad_other or "a %s resource: %s is %s for HLSL and %s for MSL" % (what, k, h[1][k], m[1][k])
     for tgt in sorted(abs_):
         chk.ob("C18.bindings/name/" + tgt, not bad_name[tgt], bad_name[tgt] or "every binding is reported under its source name", where(abs_[tgt]), sample={"target": tgt, "cases": n})
     for oname in sorted(objs):
